@@ -12,6 +12,7 @@ echo "== demo on changed tree:"; PYTHONPATH=$WT timeout 600 /venv/bin/python "$D
 echo "== demo on unchanged tree:"; PYTHONPATH=/repo timeout 600 /venv/bin/python "$DIR/demo.py" > /scratch/seedtest-$PID-demo0.log 2>&1; echo "exit $?"; tail -2 /scratch/seedtest-$PID-demo0.log
 if [ "$NOSUITE" != "--no-suite" ]; then
   echo "== test suite on changed tree:"
+  cd $WT
   PYTHONPATH=$WT env -u BBC_VC2_CONFORMANCE_VERIF /venv/bin/python -m pytest -q -p no:cacheprovider --timeout=900 --continue-on-collection-errors --junitxml=/scratch/seedtest-$PID.xml > /scratch/seedtest-$PID-suite.log 2>&1
   tail -1 /scratch/seedtest-$PID-suite.log
   /venv/bin/python - <<PY
